@@ -205,36 +205,39 @@ def ev(e, env):
 
 def lost_offsets(exprs, signals_too=False, live_ops=None, not_decision=()):
     """exprs: list of trees that together form one relation (e.g. [lhs_i, rhs_i]).  Every leaf and every
-    off(...) / placeholder node becomes a fresh MX symbol; returns the off-nodes the simplified difference
-    no longer depends on (generator-made cancellations such as (x - x)*prev(y))."""
+    off(...) / integral-like placeholder node becomes a fresh MX symbol (at_t0 / at_tf are linear evaluations: their
+    inner expression is expanded with symbols of its own, so that -2*at_t0(x) + at_t0(x + x) is seen to cancel); returns
+    the off-nodes the simplified difference no longer depends on (generator-made cancellations such as (x - x)*prev(y))."""
     import casadi as ca
     import json
     atoms = {}
 
-    def atom(node):
-        k = json.dumps(node)
+    def atom(node, tag):
+        k = json.dumps(node if tag is None else [tag, node])
         if k not in atoms:
             atoms[k] = ca.MX.sym("a%d" % len(atoms))
         return atoms[k]
 
-    def rec(e):
+    def rec(e, tag=None):
         op = e[0]
         if op == "c":
             return ca.MX(e[1])
         if op == "neg":
-            return -rec(e[1])
+            return -rec(e[1], tag)
         if op == "sq":
-            a = rec(e[1])
+            a = rec(e[1], tag)
             return a * a
         if op in ("sin", "cos", "tanh"):
-            return getattr(ca, op)(rec(e[1]))
+            return getattr(ca, op)(rec(e[1], tag))
         if op == "+":
-            return rec(e[1]) + rec(e[2])
+            return rec(e[1], tag) + rec(e[2], tag)
         if op == "-":
-            return rec(e[1]) - rec(e[2])
+            return rec(e[1], tag) - rec(e[2], tag)
         if op == "*":
-            return rec(e[1]) * rec(e[2])
-        return atom(e)      # symbols, t, T, ..., shifted operands, placeholders: atomic
+            return rec(e[1], tag) * rec(e[2], tag)
+        if op in ("at_t0", "at_tf") and tag is None:
+            return rec(e[1], op + ":" + str(e[2] if len(e) > 2 else ""))
+        return atom(e, tag)      # symbols, t, T, ..., shifted operands, other placeholders: atomic
     total = ca.MX(0)
     for i, e in enumerate(exprs):
         total = total + (i + 1.5) * rec(e)
@@ -250,13 +253,16 @@ def lost_offsets(exprs, signals_too=False, live_ops=None, not_decision=()):
     for _ in range(2):
         mag = np.maximum(mag, np.abs(np.array(J(rng.uniform(-1.3, 1.7, len(keys)))).reshape(-1)))
     dead = {k for k, m_ in zip(keys, mag) if m_ < 1e-12}
-    lost = [json.loads(k) for k in keys if json.loads(k)[0] == "off" and k in dead]
+    def node_of(k):
+        v = json.loads(k)
+        return v[1] if (isinstance(v[0], str) and ":" in v[0] and isinstance(v[1], list)) else v
+    lost = [node_of(k) for k in keys if node_of(k)[0] == "off" and k in dead]
     if signals_too:
         # the whole relation must still depend on some declared symbol (it may not collapse to a constant)
         def decision(node):      # an atom counts if it is, or contains, a symbol that is not a parameter
             names = syms_in(node)
             return bool(names - set(not_decision)) or not names
-        live = [k for k in keys if json.loads(k)[0] in (live_ops or (("sym", "off") + tuple(PLACEHOLDERS))) and k not in dead and decision(json.loads(k))]
+        live = [k for k in keys if node_of(k)[0] in (live_ops or (("sym", "off") + tuple(PLACEHOLDERS))) and k not in dead and decision(node_of(k))]
         if not live:
             lost.append(["collapsed"])
     return lost
